@@ -54,3 +54,46 @@ Proof.
   intros H Hq. unfold gen_approximate_rational. replace (0 * dq) with 0 by ring.
   destruct (dp <=? 0) eqn:E; [reflexivity|lia].
 Qed.
+
+(* ------------------------------------------------------------------------------------------------------------ *)
+(* round 6: from_float in tolerance mode -- the HAND MODEL of the glue around approximate_rational (Model.from_float; the
+   source of TimeType.from_float / approximate_double is not translated) *)
+Open Scope Q_scope.
+
+Lemma Qnum_den_eta (r : Q) : Qnum r # Qden r = r. Proof. destruct r; reflexivity. Qed.
+
+Lemma in_open_compat x x' e e' r : x == x' -> e == e' -> in_open x e r -> in_open x' e' r.
+Proof. intros Hx He [A B]. unfold in_open. rewrite <- Hx, <- He. split; assumption. Qed.
+
+Theorem from_float_tol_minimal (exact dec tol : Q) : 0 < tol -> tol <= 1 ->
+  exists (p : Z) (q : positive), from_float exact dec (FFTol tol) = ORet (p # q) /\
+    in_open exact tol (p # q) /\ forall p' q', in_open exact tol (p' # q') -> (q <= q')%positive.
+Proof.
+  intros Hpos Hle. unfold from_float.
+  assert (Qle_bool tol 0 = false) as G1.
+  { destruct (Qle_bool tol 0) eqn:E; [|reflexivity]. apply Qle_bool_iff in E. exfalso. apply (Qlt_not_le _ _ Hpos E). }
+  assert (Qle_bool tol 1 = true) as G2 by (apply Qle_bool_iff; exact Hle).
+  rewrite G1, G2. cbn [andb negb]. unfold Qnum_den.
+  assert (0 < Qnum (Qred tol))%Z as Hdp.
+  { assert (0 < Qred tol) as H by (rewrite Qred_correct; exact Hpos). unfold Qlt in H. simpl in H. lia. }
+  destruct (approximate_rational_best_Q (Qnum (Qred exact)) (Qden (Qred exact)) (Qnum (Qred tol)) (Qden (Qred tol)) Hdp)
+    as (p & q & E & Hin & Hmin).
+  rewrite E. exists p, q. split; [reflexivity|].
+  rewrite !Qnum_den_eta in Hin, Hmin.
+  split.
+  - apply (in_open_compat _ _ _ _ _ (Qred_correct exact) (Qred_correct tol) Hin).
+  - intros p' q' H. apply (Hmin p').
+    apply (in_open_compat exact (Qred exact) tol (Qred tol)); [symmetry; apply Qred_correct | symmetry; apply Qred_correct | exact H].
+Qed.
+
+Theorem from_float_tol_rejects (exact dec tol : Q) : tol < 0 \/ 1 < tol -> from_float exact dec (FFTol tol) = OFail.
+Proof.
+  intros [H|H]; unfold from_float.
+  - assert (Qle_bool tol 0 = true) as G1 by (apply Qle_bool_iff, Qlt_le_weak, H).
+    assert (Qeq_bool tol 0 = false) as G2.
+    { destruct (Qeq_bool tol 0) eqn:E; [|reflexivity]. apply Qeq_bool_iff in E. rewrite E in H. discriminate. }
+    rewrite G1, G2. reflexivity.
+  - assert (Qle_bool tol 1 = false) as G2.
+    { destruct (Qle_bool tol 1) eqn:E; [|reflexivity]. apply Qle_bool_iff in E. exfalso. apply (Qlt_not_le _ _ H E). }
+    rewrite G2. cbn [negb]. destruct (Qle_bool tol 0 && negb (Qeq_bool tol 0)); reflexivity.
+Qed.
